@@ -216,7 +216,7 @@ pub fn check(case: &Case, env: &mut CaseEnv) -> Result<(), Failure> {
 }
 
 pub fn shard(ctx: &mut Ctx) {
-    let (tables, max_rows, nq) = ctx.tier.pick((1600, 50, 12), (40000, 200, 24));
+    let (tables, max_rows, nq) = ctx.tier.pick((3200, 50, 12), (40000, 200, 24));
     let n = ctx.share(tables);
     ctx.drive("where", case_strategy(max_rows, nq), n, check);
 }
